@@ -13,6 +13,7 @@ Structural clauses decided so far (DESIGN §3/C06):
 from __future__ import annotations
 
 import ast
+import re
 
 from ..core import AnalysisError, dotted, norm_src
 from .. import sysmodel, protocol
@@ -89,6 +90,44 @@ def tangent_homogeneity(ctx):
             rep.ok("C06.R12", C, f"degree not inferred ({fmt(d)}) (no verdict)", verdict="unknown", trivial=True)
 
 
+def plane_axes_are_columns(ctx, rule="C06.R14"):
+    """K15 idea on the plane frame: A_IB maps plane components to inertial components, its COLUMNS are the plane axes e_x, e_y, e_z in the
+    inertial basis.  The contact uses n = e_z (a column).  Rows of A_IB are the inertial axes in plane components: for a tilted plane
+    (A_IB not symmetric) they are not perpendicular to n, gamma_F is not the tangential relative velocity and W_F gets a normal component."""
+    rep = ctx.rep
+    cls = ctx.repo.get(S2P, "Sphere2Plane")
+    lam = {}
+    for w in ast.walk(cls):
+        if isinstance(w, ast.Assign) and len(w.targets) == 1 and isinstance(w.targets[0], ast.Attribute) and dotted(w.targets[0].value) == "self" and isinstance(w.value, ast.Lambda) \
+                and w.targets[0].attr in ("n", "t1t2"):
+            lam[w.targets[0].attr] = w
+
+    def kind(e):
+        """'col' / 'row' / None for a selection out of a call of A_IB"""
+        src = norm_src(e).replace(" ", "")
+        m = re.search(r"A_IB\([^)]*\)(.*)$", src)
+        if not m:
+            return None
+        tail = m.group(1)
+        if re.fullmatch(r"\.T\[:?\d*:?\d*\]", tail) or re.fullmatch(r"\[:,[^\]]+\](\.T)?", tail):
+            return "col"
+        if re.fullmatch(r"\[:?\d*:?\d*\]", tail) or re.fullmatch(r"\.T\[:,[^\]]+\](\.T)?", tail):
+            return "row"
+        return None
+    C = f"{S2P}:Sphere2Plane.__init__"
+    if "n" not in lam or "t1t2" not in lam:
+        rep.ok(rule, C, "basis lambdas n / t1t2 not found (no verdict)", verdict="unknown", trivial=True)
+        return
+    kn, kt = kind(lam["n"].value.body), kind(lam["t1t2"].value.body)
+    if kn is None or kt is None:
+        rep.ok(rule, C, f"selection out of A_IB not recognised (n: {norm_src(lam['n'].value.body)[:40]}, t1t2: {norm_src(lam['t1t2'].value.body)[:40]}) (no verdict)", verdict="unknown")
+    elif kn == kt:
+        rep.ok(rule, C, f"n and t1t2 are both {kn}umns of the plane's A_IB" if kn == "col" else f"n and t1t2 are both rows of A_IB")
+    else:
+        rep.bad(rule, C, lam["t1t2"], f"`{norm_src(lam['t1t2'])[:70]}` takes {kt}s of A_IB while the normal `{norm_src(lam['n'].value.body)[:40]}` is a {kn}: for a tilted plane the 'tangents' are not the "
+                "plane's axes and not perpendicular to n - gamma_F is not the tangential relative velocity, W_F has a normal component", f"{S2P}:{lam['t1t2'].lineno}")
+
+
 def run(ctx):
     rep = ctx.rep
     rep.rule("C06.R1", "dispatch totality of contact methods per contact class", 28)
@@ -99,6 +138,8 @@ def run(ctx):
     rep.rule("C06.R8", "relative polarity of the two spheres' terms in the normal-gap chain and in the slip chain (K9)", 14)
     rep.rule("C06.R9", "all point-protocol calls of a contact on one body name the same material point (xi, B_r_CP)", 6)
     protocol.point_argument_agreement(ctx, "C06.R9", [(ci.qual, ci.rel, ci.node) for ci in contact_classes(ctx)])
+    rep.rule("C06.R14", "Sphere2Plane: normal and tangents are all COLUMNS of the plane's A_IB (the plane axes in inertial components): with n = A_IB[:, 2] the tangents are A_IB.T[:2] / A_IB[:, :2].T, never rows A_IB[:2]", 1)
+    plane_axes_are_columns(ctx)
     rep.rule("C06.R13", "contact routines do not modify in place what the memoised contact kinematics (n, n_q1_q2, t1t2, t1t2_q1_q2) or the bodies' memoised kinematics hand out (K18): a derivative evaluated after another one at the same state stays exact", 5)
     from .. import cachepurity as _cp
     _cp.report(ctx, "C06.R13", ("cardillo/contacts/",), floor_note=False)
@@ -297,4 +338,13 @@ NEUTRAL += [
 MUTANTS += [
     dict(id="c06-r13-seed", canary=True, what="[seeded by sub-agent] Sphere2Sphere.Wla_N_q hoists the factor la_N into the arrays returned by the memoised n_q1_q2 (nq1 *= la_N)", file=S2S,
          old="        nq1, nq2 = self.n_q1_q2(t, q)\n", new="        nq1, nq2 = self.n_q1_q2(t, q)\n        nq1 *= la_N\n", expect="C06.R13"),
+]
+
+MUTANTS += [
+    dict(id="c06-r14-seed", canary=True, what="[seeded by sub-agent] Sphere2Plane.t1t2 takes the first two ROWS of the plane's A_IB ('stray .T dropped for consistency with t1t2_dot')", file=S2P,
+         old="        self.t1t2 = lambda t: self.frame.A_IB(t).T[:2]\n", new="        self.t1t2 = lambda t: self.frame.A_IB(t)[:2]\n", expect="C06.R14"),
+]
+NEUTRAL += [
+    dict(id="c06-n-r14", canary=True, what="Sphere2Plane.t1t2 written as A_IB[:, :2].T", file=S2P,
+         old="        self.t1t2 = lambda t: self.frame.A_IB(t).T[:2]\n", new="        self.t1t2 = lambda t: self.frame.A_IB(t)[:, :2].T\n"),
 ]
